@@ -91,12 +91,13 @@ def _tnames(t, names, muts):
 
 def _walk_level(stmts):
     """nodes of `stmts` that belong to this loop level (nested loops and function bodies are not entered)"""
-    todo = list(stmts)
+    skip = (ast.For, ast.While, ast.FunctionDef, ast.Lambda, ast.ClassDef, ast.AsyncFor)
+    todo = [s for s in stmts if not isinstance(s, skip)]
     while todo:
         n = todo.pop()
         yield n
         for c in ast.iter_child_nodes(n):
-            if isinstance(c, (ast.For, ast.While, ast.FunctionDef, ast.Lambda, ast.ClassDef, ast.AsyncFor)): continue
+            if isinstance(c, skip): continue
             todo.append(c)
 
 def _certainly_leaves(block):
